@@ -69,6 +69,9 @@ pub fn supervise(args: &Args, level: &'static str, rule: &str, abort_key: &str, 
         for e in rd.flatten() {
             let Ok(s) = std::fs::read_to_string(e.path()) else { continue };
             let Ok(cj) = serde_json::from_str::<Value>(&s) else { continue };
+            if confirmed {
+                break; // one attributed death is enough; the others usually share its cause
+            }
             ctx.case(None);
             let st = run_with_timeout(
                 std::process::Command::new(&exe)
@@ -82,9 +85,6 @@ pub fn supervise(args: &Args, level: &'static str, rule: &str, abort_key: &str, 
                 Ok(None) => true, // still running after 30 s: killed
                 Err(_) => false,
             };
-            if confirmed {
-                break; // one attributed death is enough; the others usually share its cause
-            }
             if died {
                 confirmed = true;
                 ctx.force_sample(cj.clone());
